@@ -118,7 +118,9 @@ class Sim:
         self.ops.append(s)
 
     def line(self):
-        return ("d1 " if self.dup else "d0 ") + " ".join(self.ops)
+        # sets: one history in four inserts without the optional iterator out-parameter (flag q)
+        q = "q" if (not self.dup and (len(self.ops) * 7 + sum(map(len, self.ops))) % 4 == 0) else ""
+        return ("d1 " if self.dup else "d0" + q + " ") + " ".join(self.ops)
 
 
 def fib_tree_keys(h):
